@@ -430,40 +430,56 @@ func c03Reset(r *core.Run) {
 	qReset := p.Func("tds", "PacketQueue", "Reset")
 	fQueueTx := p.Field("tds", "Channel", "queueTx")
 	cNormal := constOf(p, "tds", "TDS_BUF_NORMAL")
-	hdr, last, q := false, false, false
-	for _, b := range reset.Blocks {
-		for _, in := range b.Instrs {
-			switch x := in.(type) {
-			case *ssa.Store:
-				if fa, ok := x.Addr.(*ssa.FieldAddr); ok {
-					if core.FieldOfAddr(fa) == fHdr {
-						if c, isC := x.Val.(*ssa.Const); isC && c.Value != nil && constEq(c.Value, cNormal) {
-							hdr = true
+	// restorers: functions that directly restore all three pieces of tx state
+	restores := func(fn *ssa.Function) bool {
+		hdr, last, q := false, false, false
+		for _, b := range fn.Blocks {
+			for _, in := range b.Instrs {
+				switch x := in.(type) {
+				case *ssa.Store:
+					if fa, ok := x.Addr.(*ssa.FieldAddr); ok {
+						if core.FieldOfAddr(fa) == fHdr {
+							if c, isC := x.Val.(*ssa.Const); isC && c.Value != nil && constEq(c.Value, cNormal) {
+								hdr = true
+							}
+						}
+						if core.FieldOfAddr(fa) == fLastTx && core.IsNil(x.Val) {
+							last = true
 						}
 					}
-					if core.FieldOfAddr(fa) == fLastTx && core.IsNil(x.Val) {
-						last = true
-					}
-				}
-			case *ssa.Call:
-				if core.StaticCallee(x) == qReset {
-					if f, _ := core.FieldLoad(x.Call.Args[0]); f == fQueueTx {
-						q = true
+				case *ssa.Call:
+					if core.StaticCallee(x) == qReset {
+						if f, _ := core.FieldLoad(x.Call.Args[0]); f == fQueueTx {
+							q = true
+						}
 					}
 				}
 			}
 		}
+		return hdr && last && q
 	}
-	r.Check(hdr && last && q, "R03.4", "Channel.Reset restores the tx side", reset.Pos(), "CurrentHeaderType = TDS_BUF_NORMAL, queueTx.Reset(), lastPkgTx = nil", "Reset no longer restores header type, tx queue and lastPkgTx: state of one message leaks into the next")
+	restorers := map[*ssa.Function]bool{}
+	for _, fn := range p.ModuleFuncs() {
+		if rn := core.RecvNamed(fn); rn != nil && rn.Obj().Name() == "Channel" && restores(fn) {
+			restorers[fn] = true
+		}
+	}
+	okReset := restorers[reset]
+	for _, c := range core.Calls(reset) {
+		if f := core.StaticCallee(c); f != nil && restorers[f] && c.Common().Args[0] == ssa.Value(reset.Params[0]) {
+			okReset = true
+		}
+	}
+	r.Check(okReset, "R03.4", "Channel.Reset restores the tx side", reset.Pos(), "CurrentHeaderType = TDS_BUF_NORMAL, queueTx.Reset(), lastPkgTx = nil (directly or through its unlocked helper)", "Reset no longer restores header type, tx queue and lastPkgTx: state of one message leaks into the next")
 
 	srp := p.Func("tds", "Channel", "SendRemainingPackets")
+	isRestore := func(f *ssa.Function) bool { return f != nil && (f == reset || restorers[f]) }
 	deferred := false
 	for _, c := range core.Calls(srp) {
-		if d, ok := c.(*ssa.Defer); ok && core.StaticCallee(d) == reset {
+		if d, ok := c.(*ssa.Defer); ok && isRestore(core.StaticCallee(d)) {
 			deferred = true
 		}
 	}
-	// or an explicit call on every exit after the closed check: accept a call that post-dominates — approximated by "every return after sendPackets is preceded by Reset"
 	if !deferred {
 		all := true
 		sp := p.Func("tds", "Channel", "sendPackets")
@@ -472,7 +488,7 @@ func c03Reset(r *core.Run) {
 				has := false
 				for _, b := range pa.Blocks {
 					for _, in := range b.Instrs {
-						if cc, ok := in.(*ssa.Call); ok && core.StaticCallee(cc) == reset {
+						if cc, ok := in.(*ssa.Call); ok && isRestore(core.StaticCallee(cc)) {
 							has = true
 						}
 					}
@@ -484,5 +500,5 @@ func c03Reset(r *core.Run) {
 		}
 		deferred = all && len(callsTo(srp, sp)) > 0
 	}
-	r.Check(deferred, "R03.4", "SendRemainingPackets resets on every exit", srp.Pos(), "Reset runs on every exit after the flush", "after flushing a message the channel is not reset on every exit")
+	r.Check(deferred, "R03.4", "SendRemainingPackets resets on every exit", srp.Pos(), "the tx state is restored on every exit after the flush", "after flushing a message the channel is not reset on every exit")
 }
